@@ -47,7 +47,8 @@ func (e *otlpLogDec) Decode() error {
 					labels = append(labels, []string{k, v})
 				}
 				// Extract other log record fields
-				message := logRecord.Body.GetStringValue()
+				// the body is an any-value like the attributes: one that is not a string is stored as its rendering
+				message := SanitizeValue(logRecord.Body)
 				timestamp := logRecord.TimeUnixNano
 				// Call onEntries with labels and other details
 				err := e.onEntries(
